@@ -160,6 +160,14 @@ func (r *ParseRequestResponse) injectFile(upload *Upload, paths []string) error 
 			parts = parts[1:]
 		}
 
+		if idx < 0 || idx >= len(r.Requests) {
+			return fmt.Errorf("request index %d out of bound %d in path: %s", idx, len(r.Requests), path)
+		}
+
+		if len(parts) == 0 {
+			return fmt.Errorf("invalid number of parts in path: %s", path)
+		}
+
 		if parts[0] != "variables" {
 			return fmt.Errorf("missing keyword variables in path: %s", path)
 		}
@@ -197,6 +205,9 @@ func (r *ParseRequestResponse) injectFile(upload *Upload, paths []string) error 
 				}
 
 				// index might not be within the bounds
+				if index < 0 {
+					return fmt.Errorf("file index %d out of bound %d", index, len(v))
+				}
 				if index >= len(v) {
 					return fmt.Errorf("file index %d out of bound %d", index, len(v))
 				}
